@@ -371,6 +371,41 @@ func (e *Engine) checkBypassPredicate(r *Report, P *ssa.Function) {
 						}
 					}
 				}
+				// or: an explicit `len(msgs) == 0 -> return false` test
+				for _, b := range f.Blocks {
+					iff, ok := b.Instrs[len(b.Instrs)-1].(*ssa.If)
+					if !ok {
+						continue
+					}
+					bo, ok := iff.Cond.(*ssa.BinOp)
+					if !ok {
+						continue
+					}
+					isLen := func(v ssa.Value) bool {
+						c, ok := v.(*ssa.Call)
+						if !ok {
+							return false
+						}
+						bi, ok := c.Call.Value.(*ssa.Builtin)
+						return ok && bi.Name() == "len"
+					}
+					var emptyBranch *ssa.BasicBlock
+					if z, ok := constInt(bo.Y); ok && isLen(bo.X) {
+						switch {
+						case bo.Op == token.EQL && z == 0, bo.Op == token.LSS && z == 1, bo.Op == token.LEQ && z == 0:
+							emptyBranch = b.Succs[0]
+						case bo.Op == token.NEQ && z == 0, bo.Op == token.GTR && z == 0, bo.Op == token.GEQ && z == 1:
+							emptyBranch = b.Succs[1]
+						}
+					}
+					if emptyBranch != nil && len(emptyBranch.Instrs) > 0 {
+						if ret, ok := emptyBranch.Instrs[len(emptyBranch.Instrs)-1].(*ssa.Return); ok && len(ret.Results) == 1 {
+							if bv, ok := constBool(ret.Results[0]); ok && !bv {
+								okEmpty = true
+							}
+						}
+					}
+				}
 				r.Check(okLookup, "R1", e.FnKey(f)+" every-message", e.Pos(f.Pos()), "a message whose type URL is not in the exempt set makes the predicate false immediately", "the message-type test does not return false for every non-exempt message (e.g. only the last message decides): a transaction mixing exempt and non-exempt messages dodges the minimum fee")
 				r.Check(okEmpty, "R1", e.FnKey(f)+" empty-list", e.Pos(f.Pos()), "empty message list -> false", "an empty message list is treated as exempt")
 			}
